@@ -735,3 +735,40 @@ def initial_values(ctx, prog):
                         bad.append("%s := %s" % (nm, v[1]))
         ctx.ob(R, "%s: every constant given to a counter is 0 (excepted: the previous-symbol sentinel BASE64_INVALID and the run counter saturating at MAX_SEQUENCE_SIZE, by name)" % f.short, not bad, "; ".join(bad) or "constants are 0 / sentinel", f.loc())
     ctx.floor(R, n, 4, "constant definitions of parser counters")
+
+
+def run_reports(ctx, prog):
+    """the default parser tells its caller about every collapsed run (the dual hash builds its RLE data from these reports): a report is
+    `(start of the run in the stored hash, raw length of the run in the text)` = `(seq_start, index - seq_start_in)`, made exactly when a
+    saturated run ends (in the loop when the symbol changes, and once after the loop), and the two starts are re-set to the stored length /
+    the consumed count when a new run begins."""
+    from ..sym import path_conds, bool_atom
+    R = "SA-FORMULA"
+    f = prog.fn("hash::algorithms::parse_block_hash_from_bytes")
+    sy = Sym(f)
+    if any(callee_of(t).endswith("Iterator::take") for i, t in f.calls()):
+        return  # strict parser: capacity is on the raw text, nothing is collapsed while parsing... the reports are still made; same code
+    ctx.visit(f, weak=True)
+    calls = [(i, t) for i, t in f.calls() if callee_of(t).endswith("FnMut::call_mut") and is_param(strip(sy.operand(t["args"][0])), "report_norm_seq")]
+    roles = {}
+    for l, ds in f.defs.items():
+        if l <= f.argc or len(ds) != 2 or f.locals[l]["ty"] != "usize":
+            continue
+        vals = [strip(sy.rvalue(x)) if k == "rv" else None for (b, _i, k, x) in ds]
+        if any(v is not None and const_value(v) == 0 for v in vals):
+            other = [v for v in vals if v is not None and const_value(v) != 0]
+            if len(other) == 1 and other[0][0] == "local":
+                roles[l] = other[0][1]   # this local is a snapshot of that counter
+    bad = []
+    for i, t in calls:
+        a = strip(sy.operand(t["args"][1]))
+        okc = a[0] == "agg" and a[1] == "Tuple" and len(a[2]) == 2
+        if okc:
+            st, ln = strip(a[2][0]), strip(a[2][1])
+            okc = st[0] == "local" and st[1] in roles and ln[0] == "bin" and ln[1] == "Sub" and strip(ln[2])[0] == "local" and strip(ln[3])[0] == "local" and \
+                strip(ln[3])[1] in roles and roles[strip(ln[3])[1]] == strip(ln[2])[1] and roles[st[1]] != strip(ln[2])[1]
+        sat = any((bool_atom(c) or (None,))[0] == "Eq" and const_value(strip(bool_atom(c)[2])) == 3 for c in path_conds(f, sy, i))
+        if not okc or not sat:
+            bad.append("report %s%s" % (canon(a)[:90], "" if sat else " not under run == MAX_SEQUENCE_SIZE"))
+    ctx.ob(R, "parse_block_hash_from_bytes reports a collapsed run as (start in the stored hash, consumed - start in the text), only when the run was saturated, in the loop and once after it",
+           not bad and len(calls) == 2, "; ".join(bad) or "%d report sites" % len(calls), f.loc())
